@@ -166,6 +166,9 @@ func c06Fuzz(p *fw.ParentCtx) {
 		return
 	}
 	execs := "1500000x"
+	if e := os.Getenv("VERIF_FUZZ_EXECS"); e != "" { // for testing the campaign plumbing only
+		execs = e
+	}
 	args := []string{"test"}
 	if mf := os.Getenv("VERIF_GO_MODFILE"); mf != "" {
 		args = append(args, "-modfile="+mf)
@@ -246,5 +249,6 @@ func init() {
 		Technique:        "runtime monitor: termination-mode observer with loop step budgets (hook H3) and crash attribution",
 		FatalIsViolation: true,
 		Watchdog:         func(t string) int { return 1800 },
+		Extra:            c06Fuzz,
 	})
 }
